@@ -353,6 +353,20 @@ def PFields.find : PFields → Bytes → Option Proj
   | .cons a p rest, n => if a = n then some p else PFields.find rest n
 
 mutual
+/-- the column has no leaf vector at all (records without fields, possibly nested): nothing of
+    it is ever loaded, so nothing of it can be missing. -/
+def Col.noLeaves : Col → Bool
+  | .record _ fs => FCols.noLeaves fs
+  | .nulls _ _ c => Col.noLeaves c
+  | .named _ c => Col.noLeaves c
+  | .error c => Col.noLeaves c
+  | _ => false
+def FCols.noLeaves : FCols → Bool
+  | .nil => true
+  | .cons _ c rest => Col.noLeaves c && FCols.noLeaves rest
+end
+
+mutual
 /-- loading `c` with paths `P` loads every leaf of `c`. -/
 def fullyLoaded : Proj → Col → Bool
   | .all, _ => true
@@ -371,7 +385,7 @@ def fieldsLoaded : PFields → FCols → Bool → Bool
   | _, .nil, _ => true
   | fs, .cons n c rest, single =>
     (match PFields.find fs n with
-      | none => false
+      | none => Col.noLeaves c
       | some q => if single then fullyLoaded q c else true) && fieldsLoaded fs rest single
 def colsLoaded : Proj → Cols → Bool
   | _, .nil => true
